@@ -114,7 +114,7 @@ Expected(c) ==
                 \o S2B("[") \o Resolved(c, "b") \o S2B("2]") \o S2B("$")
 
 (* ---- stand-alone users: a template that imports blocks with use but extends nothing (and may define no block itself) ---- *)
-NSolo == 15
+NSolo == 18
 SoloU == ("u" :> <<BlockS("h", <<Who("u"), Lbl("uh")>>)>>) @@ ("u2" :> <<BlockS("h2", <<Who("u2"), Lbl("u2h")>>)>>)
 SoloBody(k) ==
   CASE k = 1 -> <<UseS(StrE("u"), << <<"h", "g">> >>), Lbl("^"), PrintS(CallE("block", <<StrE("g")>>)), Lbl("$")>>
@@ -149,12 +149,22 @@ LoopTpls(k) ==
              ELSE <<Lbl("<"), SetS("v", StrE("p")), BlockS("a", <<Lbl("R"), PrintS(NameE("v"))>>), SetS("v", StrE("q")), PrintS(CallE("block", <<StrE("a")>>)), Lbl(">")>>)
   @@ ("mid" :> <<ExtendsS(StrE("root")), BlockS("a", PB("M"))>>)
   @@ ("t1" :> <<ExtendsS(StrE("mid")), BlockS("a", <<Lbl("C"), PrintS(NameE("v"))>> \o PB(""))>>)
-SoloTpls(k) == IF k >= 13 THEN LoopTpls(k) ELSE IF k >= 9 THEN CondTpls(k) ELSE IF k >= 6 THEN TwiceTpls(k) ELSE SoloU @@ ("t1" :> SoloBody(k))
+(* aliases: parent() inside a block imported under an alias is the ancestors' version of the ALIAS name; several aliases of one
+   use statement all refer to the library's own names (a swap is a swap) *)
+AliasTpls(k) ==
+  ("lib" :> <<BlockS("a", <<Lbl("LA")>>), BlockS("b", <<Lbl("LB")>>), BlockS("box", PB("B"))>>)
+  @@ ("root" :> <<Lbl("<"), BlockS("content", <<Lbl("R.c")>>), Lbl("|"), BlockS("a", <<Lbl("Ra")>>), Lbl("|"), BlockS("b", <<Lbl("Rb")>>), Lbl(">")>>)
+  @@ ("t1" :> <<ExtendsS(StrE("root")),
+                UseS(StrE("lib"), CASE k = 15 -> << <<"box", "content">> >>
+                                    [] k = 16 -> << <<"a", "b">>, <<"b", "a">> >>
+                                    [] OTHER -> << <<"box", "content">>, <<"a", "b">>, <<"b", "a">> >>)>>)
+SoloTpls(k) == IF k >= 15 THEN AliasTpls(k) ELSE IF k >= 13 THEN LoopTpls(k) ELSE IF k >= 9 THEN CondTpls(k) ELSE IF k >= 6 THEN TwiceTpls(k) ELSE SoloU @@ ("t1" :> SoloBody(k))
                @@ (CASE k = 2 -> ("top" :> <<Lbl("["), IncludeS(StrE("t1"), NoE, FALSE), Lbl("]")>>)
                      [] k = 5 -> ("top" :> <<Lbl("["), EmbedS(StrE("t1"), NoE, FALSE, <<>>), Lbl("]")>>)
                      [] OTHER -> <<>>)
 SoloEntry(k) == IF k \in {2, 5} THEN "top" ELSE IF k = 6 THEN "mid" ELSE "t1"
-SoloExpected(k) == CASE k = 13 -> S2B("<C1[M[R1]]C2[M[R2]]C3[M[R3]]|C7[M[R7]]C8[M[R8]]>") [] k = 14 -> S2B("<Cp[M[Rp]]Cq[M[Rq]]>")
+SoloExpected(k) == CASE k = 15 -> S2B("<B[R.c]|LA|LB>") [] k = 16 -> S2B("<R.c|LB|LA>") [] k = 17 -> S2B("<B[R.c]|LB|LA>")
+                     [] k = 13 -> S2B("<C1[M[R1]]C2[M[R2]]C3[M[R3]]|C7[M[R7]]C8[M[R8]]>") [] k = 14 -> S2B("<Cp[M[Rp]]Cq[M[Rq]]>")
                      [] k \in {9, 10, 11} -> S2B("<C.a[M.a[R.a]]|C.c[R.c]>") [] k = 12 -> S2B("<C.a[R.a]|C.c[M.c[R.c]]>")
                      [] k \in {6, 7} -> S2B("<T.a|M.side[T.a]>") [] k = 8 -> S2B("<T.a|O.side[T.a]>") [] k = 1 -> S2B("^uh$") [] k = 3 -> S2B("^ouh$") [] k = 4 -> S2B("^u2huh$")
                      [] k \in {2, 5} -> S2B("[^uh$]") [] OTHER -> S2B("^uh$")
